@@ -27,8 +27,9 @@ import ZtypV.Proofs.ViewLenMain
 import ZtypV.Proofs.ViewGetMain
 import ZtypV.Proofs.ViewConstruct
 import ZtypV.Proofs.ViewRange
+import ZtypV.Proofs.SerInj
 import ZtypV.Proofs.ViewRoot
-import ZtypV.Model.Decode
+import ZtypV.Proofs.DecodeSound
 namespace ZtypV.Props.C02
 open ZtypV ZtypV.View
 
@@ -95,27 +96,58 @@ theorem C02_inRange_of_small (t : Ty) (hwf : t.wf = true) (hsmall : limitsLe (2 
     inRange t = true :=
   inRange_of_small t hwf hsmall
 
-/-! ### round trip (conditional on the decode theorem proved under C03) -/
+/-! ### round trip
 
-/-- the decode soundness statement C03 proves: an accepted input is the encoding of a typed value
-    and the decoded backing is the one the constructors build for that value -/
-def DecodeSound : Prop :=
-  ∀ (h : HashFn) (t : Ty) (bs : Bytes) (n : Node), t.wf = true → decodeTop h t bs = .ok n →
-    ∃ v', hasType t v' = true ∧ serialize t v' = bs ∧ construct h t v' = .ok n
+Decode soundness is C03's theorem `DecodeProofs.decodeTop_sound` (an accepted input is the
+encoding of a typed value and the decoded backing is the one the constructors build); it is
+used here.  That the decoder *accepts* every spec encoding (completeness) is not proved in the
+project; it is the explicit hypothesis `DecodeComplete` of the full statement and is exercised
+by the dynamic round-trip check. -/
 
-/-- the decoder accepts every spec encoding (C03 completeness) -/
+/-- `serialize` is injective on typed values of a well-formed type.  The size bound is
+    necessary: offsets are `uint32` and wrap, so two different splits of one payload of ≥ 2^32
+    bytes into variable-size parts have the same encoding. -/
+theorem C02_serialize_injective (t : Ty) (v w : Val) (hwf : t.wf = true)
+    (hv : hasType t v = true) (hw : hasType t w = true)
+    (hsize : (serialize t v).length < 2 ^ 32) (h : serialize t v = serialize t w) : v = w :=
+  serialize_injective t v w hwf hv hw hsize h
+
+/-- Round trip: whenever the decoder accepts the spec encoding of `v`, the decoded view is the
+    constructed view of `v` itself; hence it has the same encoding, the same reported length,
+    the same components through the getters and (by C01, outside finding D3) the spec root. -/
+theorem C02_roundtrip (h : HashFn) (t : Ty) (v : Val) (n : Node) (hwf : t.wf = true)
+    (hrange : inRange t = true) (hty : hasType t v = true)
+    (hsize : (serialize t v).length < 2 ^ 32)
+    (hd : decodeTop h t (serialize t v) = .ok n) :
+    construct h t v = .ok n ∧
+    serializeView t n = .ok (serialize t v) ∧
+    valueByteLength t n = .ok (serialize t v).length ∧
+    viewVal t n = .ok v ∧ (noBoolSeries t = true → n.root h = htr h t v) := by
+  have hleaf : DecodeProofs.isLeafTy t = true → (serialize t v).length = t.fixedSize := by
+    intro hl
+    apply serialize_fixed_length v t _ hty
+    cases t <;> simp [DecodeProofs.isLeafTy, Ty.isFixed] at hl ⊢
+  obtain ⟨v', hty', hser, hc⟩ := DecodeProofs.decodeTop_sound h t _ n hleaf hd
+  have hv : v = v' := serialize_injective t v v' hwf hty hty' hsize hser.symm
+  subst hv
+  exact ⟨hc, C02_ser h t v n hwf hrange hty hsize hc, C02_len h t v n hwf hrange hty hc,
+    C02_getters h t v n hwf hrange hty hc,
+    fun hnb => construct_root_of_ok h t v n hwf hnb hty hc⟩
+where
+  construct_root_of_ok (h : HashFn) (t : Ty) (v : Val) (n : Node) (hwf : t.wf = true)
+      (hnb : noBoolSeries t = true) (hty : hasType t v = true) (hc : construct h t v = .ok n) :
+      n.root h = htr h t v := by
+    obtain ⟨n', hn', hr⟩ := construct_root h t v hwf hnb hty
+    rw [hc] at hn'; cases hn'; exact hr
+
+/-- the decoder accepts every spec encoding (decoder completeness; not proved in the project) -/
 def DecodeComplete : Prop :=
   ∀ (h : HashFn) (t : Ty) (v : Val), t.wf = true → hasType t v = true →
     (serialize t v).length < 2 ^ 32 → ∃ n, decodeTop h t (serialize t v) = .ok n
 
-/-- `serialize` is injective on typed values (offsets are `uint32`: needs the size bound) -/
-def SerializeInjective : Prop :=
-  ∀ (t : Ty) (v w : Val), t.wf = true → hasType t v = true → hasType t w = true →
-    (serialize t v).length < 2 ^ 32 → serialize t v = serialize t w → v = w
-
-/-- Full round-trip statement of C02: decoding the spec encoding of `v` yields a view with the
-    same encoding, the same reported length, the spec hash-tree-root (outside finding D3) and the
-    same components through the getters. -/
+/-- Full round-trip statement of C02: decoding the spec encoding of `v` succeeds and yields a
+    view with the same encoding, the same reported length, the spec hash-tree-root (outside
+    finding D3) and the same components through the getters. -/
 def C02_roundtrip_full : Prop :=
   ∀ (h : HashFn) (t : Ty) (v : Val), t.wf = true → inRange t = true → hasType t v = true →
     (serialize t v).length < 2 ^ 32 →
@@ -125,39 +157,11 @@ def C02_roundtrip_full : Prop :=
       viewVal t n = .ok v ∧
       (noBoolSeries t = true → n.root h = htr h t v)
 
-/-- What is proved here: whenever the decoder accepts the encoding of `v` (given decode
-    soundness), the decoded view has the same encoding and length; with injectivity of
-    `serialize` also the same components and (by C01) the spec root. -/
-theorem C02_roundtrip_of_decode (hsound : DecodeSound)
-    (h : HashFn) (t : Ty) (v : Val) (n : Node) (hwf : t.wf = true) (hrange : inRange t = true)
-    (hty : hasType t v = true) (hsize : (serialize t v).length < 2 ^ 32)
-    (hd : decodeTop h t (serialize t v) = .ok n) :
-    serializeView t n = .ok (serialize t v) ∧
-    valueByteLength t n = .ok (serialize t v).length ∧
-    (SerializeInjective → viewVal t n = .ok v ∧ (noBoolSeries t = true → n.root h = htr h t v)) := by
-  obtain ⟨v', hty', hser, hc⟩ := hsound h t _ n hwf hd
-  refine ⟨?_, ?_, ?_⟩
-  · rw [← hser]; exact C02_ser h t v' n hwf hrange hty' (by rw [hser]; exact hsize) hc
-  · rw [← hser]; exact C02_len h t v' n hwf hrange hty' hc
-  · intro hinj
-    have hv : v = v' := hinj t v v' hwf hty hty' hsize hser.symm
-    subst hv
-    exact ⟨C02_getters h t v n hwf hrange hty hc,
-      fun hnb => construct_root_of_ok h t v n hwf hnb hty hc⟩
-where
-  construct_root_of_ok (h : HashFn) (t : Ty) (v : Val) (n : Node) (hwf : t.wf = true)
-      (hnb : noBoolSeries t = true) (hty : hasType t v = true) (hc : construct h t v = .ok n) :
-      n.root h = htr h t v := by
-    obtain ⟨n', hn', hr⟩ := construct_root h t v hwf hnb hty
-    rw [hc] at hn'; cases hn'; exact hr
-
-/-- The full statement follows from decode soundness + completeness + injectivity. -/
-theorem C02_roundtrip_full_of (hsound : DecodeSound) (hcomplete : DecodeComplete)
-    (hinj : SerializeInjective) : C02_roundtrip_full := by
+/-- The full statement follows from decoder completeness alone. -/
+theorem C02_roundtrip_full_of (hcomplete : DecodeComplete) : C02_roundtrip_full := by
   intro h t v hwf hrange hty hsize
   obtain ⟨n, hd⟩ := hcomplete h t v hwf hty hsize
-  obtain ⟨h1, h2, h3⟩ := C02_roundtrip_of_decode hsound h t v n hwf hrange hty hsize hd
-  exact ⟨n, hd, h1, h2, (h3 hinj).1, (h3 hinj).2⟩
+  exact ⟨n, hd, (C02_roundtrip h t v n hwf hrange hty hsize hd).2⟩
 
 /-! ### non-vacuity: a nested type with every kind of component -/
 
@@ -195,5 +199,18 @@ example : inRange (.list (.bytesN 32) (2 ^ 62 + 1)) = false := by decide +kernel
 set_option maxRecDepth 8000 in
 example : ∃ n, construct exH (.list (.bytesN 1) (2 ^ 62 + 1)) (.seq [.bytes [5]]) = .ok n ∧
     viewVal (.list (.bytesN 1) (2 ^ 62 + 1)) n = .error .other := ⟨_, rfl, rfl⟩
+
+/-- the round trip on a concrete example (kept small: the decoder is evaluated by `rfl`): the
+    decoder accepts the encoding, and the decoded view is the constructed one, so all
+    conclusions of `C02_roundtrip` apply to it -/
+def exT2 : Ty := .container [.uint 2, .list (.uint 1) 3, .bitlist 5]
+def exV2 : Val := .seq [.num 513, .seq [.num 7, .num 9], .bits [true, false, true]]
+
+example : ∃ n, decodeTop exH exT2 (serialize exT2 exV2) = .ok n ∧
+    construct exH exT2 exV2 = .ok n ∧ serializeView exT2 n = .ok (serialize exT2 exV2) ∧
+    viewVal exT2 n = .ok exV2 := by
+  refine ⟨_, rfl, ?_⟩
+  have := C02_roundtrip exH exT2 exV2 _ (by decide) (by decide) (by decide) (by decide) rfl
+  exact ⟨this.1, this.2.1, this.2.2.2.1⟩
 
 end ZtypV.Props.C02
